@@ -2,8 +2,11 @@ package main
 
 import (
 	"fmt"
+	"go/constant"
 	"go/token"
 	"go/types"
+	"sort"
+	"strings"
 
 	"golang.org/x/tools/go/ssa"
 )
@@ -63,6 +66,7 @@ func init() {
 			{ID: "R02r", Floor: 1, Doc: "the clean end of an archive is the bare io.EOF of a length-prefix read: no errors.Is(err, io.EOF) in the library (the CID decoders wrap io.EOF for a CID cut short, and a wrapped EOF is a truncation)", Run: ruleR02r},
 			{ID: "R02s", Floor: 1, Doc: "the CID a full inspection rebuilds from the hashed bytes has the version of the section's CID (NewCidV0 for a CIDv0 section, NewCidV1 for a CIDv1 one, or Prefix.Sum)", Run: ruleR02s},
 			{ID: "R02t", Floor: 2, Doc: "the stream adapter's forward skip reports a stream that ends early: io.CopyN over the counted reader (= R03d)", Run: ruleR03d},
+			{ID: "R02A", Floor: 1, Doc: "nothing inside the repository switches the block reader's hash check off on the caller's behalf: WithTrustedCAR is called by users of the library only, never by the library or the command-line tool (whose link systems run with TrustedStorage and rely on the reader to verify)", Run: ruleR02A},
 		},
 	})
 }
@@ -892,4 +896,33 @@ func ruleR02i(c *Ctx, r *Report) {
 		})
 	}
 	r.Count("Read calls that ignore the byte count", n)
+}
+
+// ---- R02A: the trusted-archive option is the caller's to set -------------------------------------
+
+func ruleR02A(c *Ctx, r *Report) {
+	n := 0
+	var bad []string
+	for _, fn := range c.RepoFuncs() {
+		eachInstr(fn, func(in ssa.Instruction) {
+			ci, ok := in.(ssa.CallInstruction)
+			if !ok {
+				return
+			}
+			n++
+			if f := calleeFunc(ci.Common()); funcIs(f, modV2, "", "WithTrustedCAR") {
+				if k, isK := ci.Common().Args[0].(*ssa.Const); isK && k.Value != nil && !constant.BoolVal(k.Value) {
+					return // WithTrustedCAR(false): verification stays on
+				}
+				bad = append(bad, fmt.Sprintf("%s calls WithTrustedCAR at %s", fnKey(fn), c.Pos(in.Pos())))
+			}
+		})
+	}
+	sort.Strings(bad)
+	r.Count("calls examined", n)
+	if n < 1000 {
+		r.Undec("trusted-option-is-the-callers@repository", "-", fmt.Sprintf("only %d calls seen in the repository", n))
+		return
+	}
+	r.Check(len(bad) == 0, "trusted-option-is-the-callers@repository", "-", "no function of the repository passes WithTrustedCAR", strings.Join(bad, "; ")+": the blocks that reader returns are not hashed, and the command-line tool's link systems (TrustedStorage) do not hash them either — corrupt block bytes go out as file content with exit status 0")
 }
